@@ -1,9 +1,256 @@
-(* C19 property theorems only: each closed by `exact <lemma>` with Print Assumptions beneath. *)
-From Coq Require Import ZArith List Bool.
-Require Import MV.Lib.Base MV.C19.Ops MV.C19.Gen MV.C19.Model MV.C19.Proofs_Index.
-Open Scope Z_scope.
+(* C19 property theorems only: each closed by `exact <lemma>` with Print Assumptions beneath.
+   All definitions named *_coord, dc_*, ball_u_*, grid_*, poly_*, surf_*, polyline_*, surface_* come from Gen.v,
+   regenerated from mouette/sampling.py, mouette/splines/bezier.py, mouette/geometry/aabb.py on every run.
+   Not provable (statistical): "over many draws the share of samples per edge/face follows length/area" - the
+   theorems C19_probabilities_* say that the vector handed to numpy's choice is the right one; numpy is trusted. *)
+From Coq Require Import ZArith Reals List Bool.
+Import ListNotations.
+Require Import MV.Lib.Base MV.C19.Ops MV.C19.OpsR MV.C19.Gen MV.C19.Model.
+Require Import MV.C19.Proofs_Index MV.C19.Proofs_Bezier MV.C19.Proofs_Samplers MV.C19.Proofs_Export MV.C19.Proofs_Main.
+Open Scope R_scope.
 
+(* ---------------------------------------------------------------- counts *)
+Theorem C19_counts_sphere : forall radius c xs ys zs n,
+  length xs = n -> length ys = n -> length zs = n -> length (sample_sphere Rops radius c xs ys zs) = n.
+Proof. exact sample_sphere_count. Qed.
+Print Assumptions C19_counts_sphere.
+
+Theorem C19_counts_ball : forall radius c xs ys zs us n,
+  length xs = n -> length ys = n -> length zs = n -> length us = n ->
+  length (sample_ball Rops radius c xs ys zs us) = n.
+Proof. exact sample_ball_count. Qed.
+Print Assumptions C19_counts_ball.
+
+Theorem C19_counts_box_uniform : forall pc p1 p2 n us pts,
+  sample_box Rops MUniform pc p1 p2 n us = Ok pts -> length pts = length us.
+Proof. exact box_uniform_count. Qed.
+Print Assumptions C19_counts_box_uniform.
+
+(* grid mode: round(n^(1/d))^d points *)
+Theorem C19_counts_box_grid : forall pc p1 p2 n us pts, (0 <= n)%Z -> (1 <= length p1)%nat ->
+  sample_box Rops MGrid pc p1 p2 n us = Ok pts ->
+  Z.of_nat (length pts) = (grid_res n (Z.of_nat (length p1)) ^ Z.of_nat (length p1))%Z.
+Proof. exact box_grid_count. Qed.
+Print Assumptions C19_counts_box_grid.
+
+(* ... where the resolution is the integer nearest to the real d-th root of n: (r-1/2)^d <= n < (r+1/2)^d *)
+Theorem C19_grid_resolution_is_nearest_root : forall n d, (0 <= n)%Z -> (1 <= d)%Z ->
+  let r := iroot_round n d in
+  (0 <= r /\ 2 ^ d * n < (2 * r + 1) ^ d /\ (1 <= r -> (2 * r - 1) ^ d <= 2 ^ d * n) /\ (r = 0 <-> n = 0))%Z.
+Proof. exact iroot_round_spec. Qed.
+Print Assumptions C19_grid_resolution_is_nearest_root.
+
+Theorem C19_counts_polyline : forall V E n chosen ts pts,
+  (0 <= n)%Z -> length chosen = Z.to_nat n -> length ts = Z.to_nat n ->
+  sample_polyline Rops V E n chosen ts = Ok pts -> length pts = Z.to_nat n.
+Proof. exact polyline_count. Qed.
+Print Assumptions C19_counts_polyline.
+
+Theorem C19_counts_surface : forall V F chosen us pts n, length chosen = n -> length us = n ->
+  sample_surface Rops V F chosen us = Ok pts -> length pts = n.
+Proof. exact surface_count. Qed.
+Print Assumptions C19_counts_surface.
+
+(* ---------------------------------------------------------------- in-domain, for ALL draws in their ranges *)
+Theorem C19_sphere_on_sphere : forall radius c xs ys zs p, 0 <= radius ->
+  Forall (fun g => g <> (0, 0, 0)) (zip3 xs ys zs) ->
+  In p (sample_sphere Rops radius c xs ys zs) -> dist3 Rops c p = radius.
+Proof. exact sample_sphere_on_sphere. Qed.
+Print Assumptions C19_sphere_on_sphere.
+
+Theorem C19_ball_inside : forall radius c xs ys zs us p, 0 <= radius ->
+  Forall (fun g => g <> (0, 0, 0)) (zip3 xs ys zs) -> Forall (ball_draw_ok radius) us ->
+  In p (sample_ball Rops radius c xs ys zs us) -> dist3 Rops c p <= radius.
+Proof. exact sample_ball_inside. Qed.
+Print Assumptions C19_ball_inside.
+
+(* radial law of the uniform ball: the cube of the distance is radius^3 times the uniform draw *)
+Theorem C19_ball_radial_law : forall radius (c g : rv3) u, g <> (0, 0, 0) -> 0 <= radius -> ball_draw_ok radius u ->
+  let d := dist3 Rops c (ball_pt Rops radius c g u) in d * d * d = radius * radius * radius * u.
+Proof. exact ball_pt_radial_law. Qed.
+Print Assumptions C19_ball_radial_law.
+
+Theorem C19_box_uniform_in_box : forall pc p1 p2 n us pts, length p2 = length p1 ->
+  Forall (fun u => length u = length p1 /\ in_unit_half_open u) us ->
+  sample_box Rops MUniform pc p1 p2 n us = Ok pts ->
+  length pts = length us /\
+  forall p, In p pts -> length p = length p1 /\ forall k, (k < length p1)%nat -> nth k p1 0 <= nth k p 0 < nth k p2 0.
+Proof. exact sample_box_uniform. Qed.
+Print Assumptions C19_box_uniform_in_box.
+
+Theorem C19_box_grid_in_box : forall pc p1 p2 n us pts, length p2 = length p1 ->
+  sample_box Rops MGrid pc p1 p2 n us = Ok pts ->
+  let r := grid_res n (Z.of_nat (length p1)) in
+  length pts = (Z.to_nat r ^ length p1)%nat /\
+  forall p, In p pts -> length p = length p1 /\ forall k, (k < length p1)%nat -> nth k p1 0 <= nth k p 0 <= nth k p2 0.
+Proof. exact sample_box_grid. Qed.
+Print Assumptions C19_box_grid_in_box.
+
+Theorem C19_box_rejects : forall m pc p1 p2 n us,
+  (m = MOther -> sample_box Rops m pc p1 p2 n us = Err EBadMode) /\
+  (m <> MOther -> box_is_empty Rops p1 p2 = true -> sample_box Rops m pc p1 p2 n us = Err EEmptyBox).
+Proof. exact sample_box_rejects. Qed.
+Print Assumptions C19_box_rejects.
+
+(* every polyline sample is a convex combination of the end points of the edge chosen for it *)
+Theorem C19_polyline_on_chosen_edge : forall V E n chosen ts pts, Forall (fun t => 0 <= t < 1) ts ->
+  sample_polyline Rops V E n chosen ts = Ok pts ->
+  let used := poly_edges_used (Z.of_nat (length E)) n chosen in
+  length pts = Nat.min (length used) (length ts) /\
+  forall i e p, nth_error used i = Some e -> nth_error pts i = Some p ->
+    exists a b A B, nth_res E e = Ok (a, b) /\ nth_res V a = Ok A /\ nth_res V b = Ok B /\ on_segment A B p.
+Proof. exact sample_polyline_spec. Qed.
+Print Assumptions C19_polyline_on_chosen_edge.
+
+(* barycentric weights of a surface sample: (sqrt u1 (1-u2), 1 - sqrt u1, sqrt u1 u2), all >= 0, sum 1 *)
+Theorem C19_surface_weights : forall (A B C : rv3) u1 u2, 0 <= u1 < 1 -> 0 <= u2 < 1 ->
+  (let '(wa, wb, wc) := bary_w u1 u2 in 0 <= wa /\ 0 <= wb /\ 0 <= wc /\ wa + wb + wc = 1) /\
+  (let '(wa, wb, wc) := bary_w u1 u2 in
+   let '(ax, ay, az) := A in let '(bx, by_, bz) := B in let '(cx, cy, cz) := C in
+   surf_pt_of Rops A B C u1 u2 =
+     (wa * ax + wb * bx + wc * cx, wa * ay + wb * by_ + wc * cy, wa * az + wb * bz + wc * cz)).
+Proof. exact surface_weights. Qed.
+Print Assumptions C19_surface_weights.
+
+Theorem C19_surface_in_chosen_face : forall V F chosen us pts,
+  Forall (fun u => 0 <= fst u < 1 /\ 0 <= snd u < 1) us ->
+  sample_surface Rops V F chosen us = Ok pts ->
+  length pts = Nat.min (length chosen) (length us) /\
+  forall i f p, nth_error chosen i = Some f -> nth_error pts i = Some p ->
+    exists fc A B C, nth_res F f = Ok fc /\ tri_pts V fc = Ok (A, B, C) /\ in_triangle A B C p.
+Proof. exact sample_surface_spec. Qed.
+Print Assumptions C19_surface_in_chosen_face.
+
+(* normal i is the normal of the face sample i was drawn on ... *)
+Theorem C19_surface_normal_of_chosen_face : forall V F chosen ns, sample_surface_normals Rops V F chosen = Ok ns ->
+  length ns = length chosen /\
+  forall i f nn, nth_error chosen i = Some f -> nth_error ns i = Some nn ->
+    exists fc A B C, nth_res F f = Ok fc /\ tri_pts V fc = Ok (A, B, C) /\ nn = tri_normal Rops A B C.
+Proof. exact sample_surface_normals_spec. Qed.
+Print Assumptions C19_surface_normal_of_chosen_face.
+
+(* ... which is a unit vector orthogonal to the face, and every point of the face lies in its plane *)
+Theorem C19_face_normal_is_unit_normal : forall (A B C : rv3),
+  cross3 Rops (sub3 Rops B A) (sub3 Rops C A) <> (0, 0, 0) ->
+  (let n := tri_normal Rops A B C in
+   dot3 Rops n n = 1 /\ dot3 Rops n (sub3 Rops B A) = 0 /\ dot3 Rops n (sub3 Rops C A) = 0) /\
+  forall p, in_triangle A B C p -> dot3 Rops (tri_normal Rops A B C) (sub3 Rops p A) = 0.
+Proof. exact face_normal_is_unit_normal. Qed.
+Print Assumptions C19_face_normal_is_unit_normal.
+
+(* ---------------------------------------------------------------- the vector handed to `choice` *)
+Theorem C19_probabilities_polyline : forall V E lens, edge_lengths Rops V E = Ok lens -> 0 < tsum Rops lens ->
+  let p := poly_probs Rops lens in
+  length p = length E /\ Forall (fun x => 0 <= x) p /\ tsum Rops p = 1 /\
+  forall k a b, nth_error E k = Some (a, b) ->
+    exists A B, nth_res V a = Ok A /\ nth_res V b = Ok B /\ nth k p 0 * tsum Rops lens = dist3 Rops A B.
+Proof. exact polyline_probabilities. Qed.
+Print Assumptions C19_probabilities_polyline.
+
+Theorem C19_probabilities_surface : forall V F areas, face_areas Rops V F = Ok areas -> 0 < tsum Rops areas ->
+  let p := surf_probs Rops areas in
+  length p = length F /\ Forall (fun x => 0 <= x) p /\ tsum Rops p = 1 /\
+  forall k f, nth_error F k = Some f ->
+    exists A B C, tri_pts V f = Ok (A, B, C) /\ nth k p 0 * tsum Rops areas = tri_area Rops A B C.
+Proof. exact surface_probabilities. Qed.
+Print Assumptions C19_probabilities_surface.
+
+(* ---------------------------------------------------------------- Bezier *)
+(* de Casteljau (the in-place double loop) = sum_i C(n,i) t^i (1-t)^(n-i) P_i, Binomial.C = n!/(i!(n-i)!) *)
+Theorem C19_bernstein : forall P t, P <> [] -> 0 <= t <= 1 ->
+  de_casteljau Rops P t =
+    Ok (let n := (length P - 1)%nat in rsum (S n) (fun i => C n i * t ^ i * (1 - t) ^ (n - i) * nth i P 0)).
+Proof. exact de_casteljau_is_bernstein. Qed.
+Print Assumptions C19_bernstein.
+
+Theorem C19_bernstein_curve : forall P t, P <> [] -> 0 <= t <= 1 ->
+  curve_eval Rops P t = Ok (map (fun k => bernstein_poly (column Rops k P) t) (seq 0 (point_dim P))).
+Proof. exact curve_is_bernstein. Qed.
+Print Assumptions C19_bernstein_curve.
+
+Theorem C19_bezier_endpoints : forall P, P <> [] ->
+  de_casteljau Rops P 0 = Ok (nth 0 P 0) /\ de_casteljau Rops P 1 = Ok (nth (length P - 1) P 0).
+Proof. exact bezier_endpoints. Qed.
+Print Assumptions C19_bezier_endpoints.
+
+(* convex hull: weights >= 0 summing to 1, depending on (degree, t) only - the same for every coordinate *)
+Theorem C19_bezier_convex_hull : forall P t, P <> [] -> 0 <= t <= 1 ->
+  exists w : nat -> R, (forall i, 0 <= w i) /\ rsum (length P) w = 1 /\
+    de_casteljau Rops P t = Ok (rsum (length P) (fun i => w i * nth i P 0)).
+Proof. exact bezier_convex_hull. Qed.
+Print Assumptions C19_bezier_convex_hull.
+
+Theorem C19_bezier_rejects_outside_unit_interval : forall t, ~ (0 <= t <= 1) ->
+  (forall P, de_casteljau Rops P t = Err EOutOfRange) /\
+  (forall P, curve_eval Rops P t = Err EOutOfRange) /\
+  (forall rows v, rows <> [] -> patch_eval Rops rows t v = Err EOutOfRange) /\
+  (forall rows u, patch_eval Rops rows u t = Err EOutOfRange \/ exists e, patch_row Rops rows u = Err e).
+Proof. exact bezier_rejects. Qed.
+Print Assumptions C19_bezier_rejects_outside_unit_interval.
+
+Theorem C19_patch_tensor_bernstein : forall rows u v d, rows <> [] -> Forall (fun r => r <> []) rows ->
+  Forall (fun r => point_dim r = d) rows -> 0 <= u <= 1 -> 0 <= v <= 1 ->
+  exists x, patch_eval Rops rows u v = Ok x /\ length x = d /\
+    forall k, (k < d)%nat ->
+      nth k x 0 = bernstein_poly (map (fun row => bernstein_poly (column Rops k row) u) rows) v.
+Proof. exact patch_is_tensor_bernstein. Qed.
+Print Assumptions C19_patch_tensor_bernstein.
+
+Theorem C19_patch_corners : forall (rows : list (list R)), rows <> [] ->
+  let lastrow := nth (length rows - 1) rows [] in
+  patch_bernstein1 rows 0 0 = nth 0 (nth 0 rows []) 0 /\
+  patch_bernstein1 rows 1 0 = nth (length (nth 0 rows []) - 1) (nth 0 rows []) 0 /\
+  patch_bernstein1 rows 0 1 = nth 0 lastrow 0 /\
+  patch_bernstein1 rows 1 1 = nth (length lastrow - 1) lastrow 0.
+Proof. exact patch_corners. Qed.
+Print Assumptions C19_patch_corners.
+
+(* ---------------------------------------------------------------- exports *)
+(* as_polyline: one vertex per sampled position at the curve's value, edges link consecutive SAMPLES
+   (their number comes from the positions, not from n_pts); positions outside [0,1] are rejected *)
+Theorem C19_export_polyline : forall P n_pts custom, P <> [] -> (point_dim P = 2 \/ point_dim P = 3)%nat ->
+  let ts := curve_params Rops n_pts custom in
+  (Forall unit_closed ts ->
+     as_polyline Rops P n_pts custom =
+       Ok (map (fun t => padf (bernstein_vec P t)) ts, ts, polyline_edges n_pts (Z.of_nat (length ts)))) /\
+  (custom = None -> Forall unit_closed ts) /\
+  (forall t, In t ts -> ~ unit_closed t -> as_polyline Rops P n_pts custom = Err EOutOfRange).
+Proof. exact export_polyline. Qed.
+Print Assumptions C19_export_polyline.
+
+Theorem C19_export_polyline_edges : forall n_pts m,
+  Z.of_nat (length (polyline_edges n_pts m)) = Z.max 0 (m - 1) /\
+  (forall i, (0 <= i < m - 1)%Z -> nth_error (polyline_edges n_pts m) (Z.to_nat i) = Some (i, i + 1)%Z) /\
+  (forall a b, In (a, b) (polyline_edges n_pts m) -> (0 <= a /\ b = a + 1 /\ b < m)%Z).
+Proof. exact polyline_edges_spec. Qed.
+Print Assumptions C19_export_polyline_edges.
+
+(* as_surface for ALL (n1, n2), equal or not *)
 Theorem C19_export_surface_in_range : forall n1 n2 f x,
-  In f (surface_faces n1 n2) -> In x f -> 0 <= x < n1 * n2.
+  In f (surface_faces n1 n2) -> In x f -> (0 <= x < n1 * n2)%Z.
 Proof. exact surface_faces_in_range. Qed.
 Print Assumptions C19_export_surface_in_range.
+
+Theorem C19_export_surface_grid_consistent : forall n1 n2 f, In f (surface_faces n1 n2) ->
+  exists i j a b c d, (0 <= i < n1 - 1)%Z /\ (0 <= j < n2 - 1)%Z /\ f = [a; b; c; d]
+    /\ vertex_sample n1 n2 a = Some (i, j) /\ vertex_sample n1 n2 b = Some (i, (j + 1)%Z)
+    /\ vertex_sample n1 n2 c = Some ((i + 1)%Z, (j + 1)%Z) /\ vertex_sample n1 n2 d = Some ((i + 1)%Z, j).
+Proof. exact surface_faces_grid_consistent. Qed.
+Print Assumptions C19_export_surface_grid_consistent.
+
+Theorem C19_export_surface_counts : forall n1 n2, (1 <= n1)%Z -> (1 <= n2)%Z ->
+  Z.of_nat (length (surface_vertex_params n1 n2)) = (n1 * n2)%Z /\
+  Z.of_nat (length (surface_faces n1 n2)) = ((n1 - 1) * (n2 - 1))%Z /\
+  (forall i j, (0 <= i < n1 - 1)%Z -> (0 <= j < n2 - 1)%Z ->
+     nth_error (surface_faces n1 n2) (Z.to_nat (i * (n2 - 1) + j)) = Some (cell_corners n2 i j)).
+Proof. exact export_surface_counts. Qed.
+Print Assumptions C19_export_surface_counts.
+
+(* nothing is rejected; vertex k is the patch at (U[i], V[j]) for the k-th pair of the vertex loop and carries that uv *)
+Theorem C19_export_surface_vertices : forall rows n1 n2, rows <> [] -> Forall (fun r => r <> []) rows ->
+  as_surface Rops rows n1 n2 =
+    Ok (map (fun ij => patch_bernstein rows (lin n1 (fst ij)) (lin n2 (snd ij))) (surface_vertex_params n1 n2),
+        map (fun ij => (lin n1 (fst ij), lin n2 (snd ij))) (surface_vertex_params n1 n2),
+        surface_faces n1 n2).
+Proof. exact as_surface_spec. Qed.
+Print Assumptions C19_export_surface_vertices.
